@@ -60,7 +60,7 @@ class ModelR:
     def ufn(self, name, arity=1, ret=None):
         key = (name, arity)
         if key not in self._fn:
-            self._fn[key] = z3.Function(f"{name}", *([self.sort] * arity), ret or self.sort)
+            self._fn[key] = z3.Function(f"{name}", *([self.sort] * arity), ret if ret is not None else self.sort)
         return self._fn[key]
 
     def call(self, name, *args):
@@ -174,7 +174,7 @@ class ModelU:
     def ufn(self, name, arity=1, ret=None):
         key = (name, arity)
         if key not in self._fn:
-            self._fn[key] = z3.Function(f"{name}", *([self.sort] * arity), ret or self.sort)
+            self._fn[key] = z3.Function(f"{name}", *([self.sort] * arity), ret if ret is not None else self.sort)
         return self._fn[key]
 
     def call(self, name, *args):
